@@ -511,10 +511,10 @@ theorem fetch_star_eq {env : MEnv} (hx : C01.dispatchOf env.t "x" = some ("star"
 
 /-- **below a wildcard**: each child either contributes the (nested) results of the rest of the
     path, or is dropped with a PathAccessError — never anything else -/
-theorem fetch_below {env : MEnv} (hwf : C11.WF env = true) (hc : classesOK env = true) (h : Heap)
+theorem fetch_below {env : MEnv} (hwf1 : C01.WF env.t = true)
+    (hx : C01.dispatchOf env.t "x" = some ("star", [])) (hc : classesOK env = true) (h : Heap)
     (hsc : ∀ c, isScope env h c = false) : ∀ (rest : List Step), wfStar rest = true →
     ∀ (k : Nat) (c : Val), BelowOK env h rest (fetch env h rest k c) c := by
-  obtain ⟨hwf1, hx, _, _, _, _⟩ := C11.WF_parts hwf
   intro rest
   induction rest with
   | nil => intro _ k c; exact .inl ⟨.leaf c, rfl, by simp [stars, Nest.uniform], by simp [Nest.leaves, advT]⟩
@@ -562,7 +562,8 @@ theorem hasStar_cons {s : Step} {rest : List Step} (h : hasStar (s :: rest) = fa
 /-- **`_t_eval` addresses exactly the objects of the reference walk**: on success a nested result
     of depth `stars steps` whose leaves are `matchesOf` in order; a failure before the first
     wildcard is a PathAccessError with the index of the failing segment. -/
-theorem fetch_spec {env : MEnv} (hwf : C11.WF env = true) (hc : classesOK env = true) (h : Heap) :
+theorem fetch_spec' {env : MEnv} (hwf1 : C01.WF env.t = true)
+    (hx : C01.dispatchOf env.t "x" = some ("star", [])) (hc : classesOK env = true) (h : Heap) :
     ∀ (steps : List Step), wfStar steps = true →
     (hasStar steps = false ∨ ∀ c, isScope env h c = false) →
     ∀ (k : Nat) (cur : Val),
@@ -572,7 +573,6 @@ theorem fetch_spec {env : MEnv} (hwf : C11.WF env = true) (hc : classesOK env = 
     | .fail k' e _ => fetch env h steps k cur = .error (.pae k' e)
     | .unreg => False
     | .unsupported => False := by
-  obtain ⟨hwf1, hx, _, _, _, _⟩ := C11.WF_parts hwf
   intro steps
   induction steps with
   | nil => intro _ _ k cur; exact ⟨.leaf cur, rfl, by simp [stars, Nest.uniform], by simp [Nest.leaves]⟩
@@ -587,7 +587,7 @@ theorem fetch_spec {env : MEnv} (hwf : C11.WF env = true) (hc : classesOK env = 
         · simp [hasStar] at h1
         · exact h1
       obtain ⟨ns, hns', hu, hl⟩ := collect_spec env h r (fun c' => fetch env h r 0 c') (children env h cur)
-        (fun c' _ => fetch_below hwf hc h hsc r hw.2 0 c')
+        (fun c' _ => fetch_below hwf1 hx hc h hsc r hw.2 0 c')
       simp only [matchesOf, beq_self_eq_true, if_true, hsc cur, Bool.false_eq_true, if_false,
         advance_eq hc h r _ hw.2]
       refine ⟨.node ns, ?_, ?_, ?_⟩
@@ -612,6 +612,19 @@ theorem fetch_spec {env : MEnv} (hwf : C11.WF env = true) (hc : classesOK env = 
         simp only [hf, stars_cons_acc (arg := arg) r hxo (wfSteps_op hws).2.2]
         exact ih hw.2 hns2 (k + 1) v
       | error e => simpa using hf
+
+theorem fetch_spec {env : MEnv} (hwf : C11.WF env = true) (hc : classesOK env = true) (h : Heap) :
+    ∀ (steps : List Step), wfStar steps = true →
+    (hasStar steps = false ∨ ∀ c, isScope env h c = false) →
+    ∀ (k : Nat) (cur : Val),
+    match matchesOf env h steps k cur with
+    | .ok ds => ∃ nest, fetch env h steps k cur = .ok nest ∧ nest.uniform (stars steps) = true ∧
+        nest.leaves = ds
+    | .fail k' e _ => fetch env h steps k cur = .error (.pae k' e)
+    | .unreg => False
+    | .unsupported => False := by
+  obtain ⟨hwf1, hx, _, _, _, _⟩ := C11.WF_parts hwf
+  exact fetch_spec' hwf1 hx hc h
 
 end Glom.Mut
 
